@@ -359,6 +359,7 @@ struct C20 : Scenario {
 		o.full_payload_sometimes = false;
 		o.hard_perms = false;
 		o.mac = rng.chance(1, 4);
+		o.bad_crc_sometimes = true;
 		o.explicit_dirs_only = rng.chance(2, 3);
 		if (rng.chance(1, 3)) o.methods = {"-lh0-", "-lh5-", "-lz5-", "-lh1-", "-pm2-"};
 		gen_tree(rng, o, p.members);
